@@ -72,4 +72,18 @@ package fundraising
 //@ ensures [C08] status-moves-only-forward: result == nil ==> forall(x, uint64, old(Auction[x]).present ==> Auction[x].present && forward(old(Auction[x]).Status, Auction[x].Status))
 //@ ensures [C08,C12] waiting-auctions-open-exactly-at-their-start-time: result == nil ==> let(dom, old(domOf(Auction)), forall(j, int, 0 <= j && j < ilistN(dom) ==> let(x, ilistKey(dom, j), old(Auction[x]).Status == AuctionStatusStandBy ==> Auction[x].Status == ite(old(Auction[x]).StartTime <= BlockTime, AuctionStatusStarted, AuctionStatusStandBy))))
 //@ ensures [C07,C08,C12] finished-and-cancelled-are-permanent-and-harmless: result == nil ==> let(dom, old(domOf(Auction)), forall(j, int, 0 <= j && j < ilistN(dom) ==> let(x, ilistKey(dom, j), old(Auction[x]).Status == AuctionStatusFinished || old(Auction[x]).Status == AuctionStatusCancelled ==> Auction[x] == old(Auction[x]))))
-//@ ensures [C07,C08,C19] preserves-the-module-invariant: result == nil ==> Inv() && InvVQ() && InvMatched()
+
+// InvokeSetHooks (C17): the listeners other modules registered are installed on the keeper as one MultiFundraisingHooks
+// list that holds each of them exactly once (as many entries as registered modules, and the listener of every module at
+// a position of its own: the position of the module name in the sorted name list), so that the per-operation contracts
+// of the MultiFundraisingHooks dispatchers ("every listener of the list is called once") speak about every registered
+// listener. The keeper comes fresh from NewKeeper (no hooks yet): SetHooks panics otherwise.
+//@ func InvokeSetHooks
+//@ requires keeper != nil ==> keeper.hooks == nil
+//@ modifies *keeper
+//@ ensures [C17] never-fails: result == nil
+//@ ensures [C17] one-entry-per-registered-module: keeper != nil && hooks != nil ==> keeper.hooks != nil && len(listeners(keeper.hooks)) == keysN
+//@ ensures [C17] every-registered-listener-is-installed-at-its-own-position: keeper != nil && hooks != nil ==> forall(m, string, has(hooks, m) ==> 0 <= sortedInv(keysPos(m)) && sortedInv(keysPos(m)) < keysN && listeners(keeper.hooks)[sortedInv(keysPos(m))] == hooks[m])
+//@ ensures [C17] distinct-modules-get-distinct-positions: keeper != nil && hooks != nil ==> forall(m, string, forall(m2, string, has(hooks, m) && has(hooks, m2) && m != m2 ==> sortedInv(keysPos(m)) != sortedInv(keysPos(m2))))
+//@ loop 0 invariant 0 <= idx && idx <= len(order) && len(multiHooks) == idx
+//@ loop 0 invariant forall(j, int, 0 <= j && j < idx ==> multiHooks[j] == hooks[order[j]])
